@@ -4590,11 +4590,20 @@ class NetCDFRead(IORead):
         if measures is not None:
             parsed_cell_measures = self._parse_x(field_ncvar, measures)
 
-            cf_compliant = self._check_cell_measures(
-                field_ncvar, measures, parsed_cell_measures
-            )
-            if cf_compliant:
-                for x in parsed_cell_measures:
+            if not parsed_cell_measures:
+                # Report the incorrectly formatted attribute
+                self._check_cell_measures(
+                    field_ncvar, measures, parsed_cell_measures
+                )
+
+            for x in parsed_cell_measures:
+                # Check each cell measure on its own, so that one that
+                # can not be mapped does not prevent the others from
+                # being created
+                cf_compliant = self._check_cell_measures(
+                    field_ncvar, measures, [x]
+                )
+                if cf_compliant:
                     measure, ncvars = list(x.items())[0]
                     ncvar = ncvars[0]
 
@@ -4680,15 +4689,22 @@ class NetCDFRead(IORead):
                 parsed_ancillary_variables = self._split_string_by_white_space(
                     field_ncvar, ancillary_variables, variables=True
                 )
-                cf_compliant = self._check_ancillary_variables(
-                    field_ncvar,
-                    ancillary_variables,
-                    parsed_ancillary_variables,
-                )
-                if not cf_compliant:
-                    pass
-                else:
-                    for ncvar in parsed_ancillary_variables:
+                if not parsed_ancillary_variables:
+                    # Report the incorrectly formatted attribute
+                    self._check_ancillary_variables(
+                        field_ncvar,
+                        ancillary_variables,
+                        parsed_ancillary_variables,
+                    )
+
+                for ncvar in parsed_ancillary_variables:
+                    # Check each ancillary variable on its own, so
+                    # that one that can not be mapped does not prevent
+                    # the others from being created
+                    cf_compliant = self._check_ancillary_variables(
+                        field_ncvar, ancillary_variables, [ncvar]
+                    )
+                    if cf_compliant:
                         # Set dimensions
                         axes = self._get_domain_axes(ncvar)
 
